@@ -8,7 +8,7 @@ from ..terms import A, C, F, V, L, NIL, call, conj, TRUE, CUT, show_program, sho
 
 ID = 'C04'
 LEVEL = 'model_checking'
-RULE = ('(a) two engines, generator level: every ordered pair of actor scripts from a menu of 18 (+3 scripts that register ONE shared function object - inferred, with an explicit arity, as unbound and as bound method - paired with each other and with the registering scripts) (create engine, retractall / retract of predicates the engine does not know yet, load '
+RULE = ('(e) what a process does first: every sequence of <= 4 events over {A loads, A queries, A clears, B loads, B queries}, each in a process of its own forked from a zygote that never resolved a call, where B\'s predicates are named like A\'s registrations are filed (step_1, pair_2, ext_n, once_1): afterwards both engines give exactly their own answers; (a) two engines, generator level: every ordered pair of actor scripts from a menu of 18 (+3 scripts that register ONE shared function object - inferred, with an explicit arity, as unbound and as bound method - paired with each other and with the registering scripts) (create engine, retractall / retract of predicates the engine does not know yet, load '
         'script with overwrite on/off, assert_fact, register_function, clear, atom, start/next/close of a query or a '
         'retract) x ALL merge orders of their steps (with disjoint vocabularies and, for scripts that clear or intern atoms, with the same atom names on both engines); (b) one engine: every pair (and every triple from a subset) of '
         'side-effect-free queries over disjoint variables (recursion, cut, if-then-else, negation, \\=, once, findall, '
@@ -404,6 +404,108 @@ def run_faults(spec, acc):
             acc.outcome(('fault', qi, r[0]))
 
 
+# ---------------------------------------------------------------- (e) what a process does FIRST
+# Whatever a process resolved first, on whichever engine, no engine's names become special for another
+# engine.  Engine A has step/1, pair/2 and a variadic Python predicate ext; engine B's predicates are
+# NAMED like A's registrations are filed (step_1, pair_2, ext_n, once_1) and like A's predicates (step/1
+# with other facts).  EVERY sequence of <= 4 events over {A loads, A queries, A clears, B loads, B queries}
+# is run in a process of its own (forked from a zygote that has never resolved a call); afterwards both
+# engines (loaded now if they were not) must give exactly their own answers.
+FIRST_A = [(F('step', A('a1')), TRUE), (F('step', A('a2')), TRUE), (F('pair', A('a'), A('b')), TRUE)]
+FIRST_B = [(A('step_1'), TRUE), (F('step_1', A('b1')), TRUE), (F('pair_2', A('b2')), TRUE), (A('ext_n'), TRUE), (A('once_1'), TRUE),
+           (F('step', A('bstep')), TRUE), (F('uses', X), conj(call(A('step_1')), call(F('step_1', X)), call(A('ext_n'))))]
+FIRST_EVENTS = ['a_load', 'a_query', 'a_clear', 'b_load', 'b_query']
+FIRST_QUERIES_A = [('step', 1), ('pair', 2), ('ext', 1), ('ext', 3), ('step_1', 0)]
+FIRST_QUERIES_B = [('step_1', 0), ('step_1', 1), ('pair_2', 1), ('ext_n', 0), ('once_1', 0), ('step', 1), ('uses', 1), ('pair', 2), ('ext', 1)]
+FIRST_WANT = [[2, 1, 1, 1, 0], [1, 1, 1, 1, 1, 1, 1, 0, 0]]
+FIRST_ZYGOTE = r'''
+import sys, json
+sys.path.insert(0, %(verif)r)
+from mc import impl
+from mc.checks import c04
+from mc.runner import in_child
+pa = impl.compile_text(c04.show_program(c04.FIRST_A))
+pb = impl.compile_text(c04.show_program(c04.FIRST_B))
+jobs = json.load(sys.stdin)
+json.dump([in_child(c04.first_case, pa, pb, ev, quiet=True) for ev in jobs], sys.stdout)
+'''
+
+
+def first_sequences():
+    import itertools
+    out = []
+    for n in range(0, 5):
+        out += [list(t) for t in itertools.product(range(len(FIRST_EVENTS)), repeat=n)]
+    return out
+
+
+def first_case(pa, pb, events):
+    a, b = impl.YP(), impl.YP()
+    loaded = {'a': False, 'b': False}
+
+    def ext(*args):
+        yield False
+
+    def load(which):
+        if which == 'a':
+            a.load_script_from_string(pa, fn=impl.SCRIPT_FN)
+            a.register_function('ext', ext, -1)
+        else:
+            b.load_script_from_string(pb, fn=impl.SCRIPT_FN)
+        loaded[which] = True
+
+    def ask(yp, queries):
+        out = []
+        for qn, k in queries:
+            ws = [yp.variable() for _ in range(k)]
+            try:
+                out.append(sum(1 for _ in yp.query(qn, ws)))
+            except Exception as e:  # noqa: BLE001
+                out.append('raised %s' % type(e).__name__)
+        return out
+    for e in events:
+        ev = FIRST_EVENTS[e]
+        if ev == 'a_load':
+            load('a')
+        elif ev == 'b_load':
+            load('b')
+        elif ev == 'a_query':
+            ask(a, FIRST_QUERIES_A[:2])
+        elif ev == 'b_query':
+            ask(b, FIRST_QUERIES_B[:2])
+        elif ev == 'a_clear':
+            a.clear()
+            loaded['a'] = False
+    for which in ('a', 'b'):
+        if not loaded[which]:
+            load(which)
+    return [ask(a, FIRST_QUERIES_A), ask(b, FIRST_QUERIES_B)]
+
+
+def run_first(spec, acc):
+    import json
+    import subprocess
+    import sys
+    from ..runner import VERIF
+    _, k, n = spec
+    jobs = [ev for i, ev in enumerate(first_sequences()) if i % n == k]
+    p = subprocess.run([sys.executable, '-c', FIRST_ZYGOTE % {'verif': VERIF}], input=json.dumps(jobs), capture_output=True, text=True, timeout=3000)
+    if p.returncode != 0:
+        raise RuntimeError('zygote failed: %s' % p.stderr[-2000:])
+    for ev, r in zip(jobs, json.loads(p.stdout)):
+        acc.n['evaluations'] += 1
+        acc.n['validated'] += 1
+        acc.n['transitions'] += len(ev) + len(FIRST_QUERIES_A) + len(FIRST_QUERIES_B)
+        if r != FIRST_WANT:
+            acc.violation('what-one-engine-did-first-changes-another', (4, len(ev)) + tuple(ev), {'kind': 'e', 'events': ev},
+                          'in a process of its own: %s; afterwards engine A answers %s for %s (expected %s) and engine B answers %s for %s (expected %s)\nprogram of A (plus a variadic Python predicate ext):\n%sprogram of B:\n%s'
+                          % (', '.join(FIRST_EVENTS[e] for e in ev) or '(no events)', r[0], FIRST_QUERIES_A, FIRST_WANT[0], r[1], FIRST_QUERIES_B, FIRST_WANT[1], show_program(FIRST_A), show_program(FIRST_B)),
+                          key='first|%s' % ev)
+        else:
+            acc.n['nontrivial'] += 1
+            acc.outcome(('first', len(ev)))
+
+
 # ---------------------------------------------------------------- plan / run
 def plan(tier):
     sh = [('a', k, 32) for k in range(32)] + [('b2', k, 32, 4 if tier == 'quick' else 5) for k in range(32)] + [('b3', k, 16, 2 if tier == 'quick' else 3) for k in range(16)]
@@ -415,6 +517,7 @@ def plan(tier):
         nshard = 8 if bound == 1 else 64
         sh += [('c', variant, bound, (start, k), nshard) for start in (0, 1) for k in range(nshard)]
     sh += [('d', k, 4) for k in range(4)]
+    sh += [('e', k, 4) for k in range(4)]
     # the conjunction and variable-fact bodies again in a process whose loggers are at DEBUG (records kept)
     for variant in (0, 3):
         sh += [('c', variant, 1, (start, k), 8, 'logged') for start in (0, 1) for k in range(8)]
@@ -422,6 +525,10 @@ def plan(tier):
 
 
 def run_shard(spec):
+    if spec[0] == 'e':
+        acc = Acc()
+        run_first(spec, acc)
+        return acc
     if spec[0] == 'd':
         acc = Acc()
         run_faults(spec, acc)
@@ -632,6 +739,14 @@ def expand(pairs, n=None):
 
 
 def replay(case):
+    if case['kind'] == 'e':
+        import json
+        import subprocess
+        import sys
+        from ..runner import VERIF
+        p = subprocess.run([sys.executable, '-c', FIRST_ZYGOTE % {'verif': VERIF}], input=json.dumps([case['events']]), capture_output=True, text=True, timeout=600)
+        r = json.loads(p.stdout)[0]
+        return [] if r == FIRST_WANT else [('what-one-engine-did-first-changes-another', 'engine A answers %s, engine B answers %s' % (r[0], r[1]))]
     if case['kind'] == 'd':
         acc = Acc()
         import json
